@@ -229,59 +229,80 @@ def run_one(workdir, idx, rnd, mode, ct):
         d = rng.randrange(n)
         draws.append(d)
         return d
-    logger = ListLogger()
-    tracer = mt.CallTracer(logger, k, admit if use_filter else (lambda code: code.co_filename in pathset), rate)
-    rec = Recorder(tracer, logger, paths, vrec.R, k, admit if use_filter else (lambda code: True), ct, draws)
-    random.randrange = fake_randrange
-    old = sys.getprofile()
-    crashed = None
-    sys.setprofile(rec)
-    try:
+    def session(order):
+        """one tracing session: a fresh CallTracer and recorder around the workload of the given modules"""
+        del draws[:]
+        logger = ListLogger()
+        tracer = mt.CallTracer(logger, k, admit if use_filter else (lambda code: code.co_filename in pathset), rate)
+        rec = Recorder(tracer, logger, paths, vrec.R, k, admit if use_filter else (lambda code: True), ct, draws)
+        random.randrange = fake_randrange
+        old = sys.getprofile()
+        crashed = None
+        sys.setprofile(rec)
         try:
-            for _m in order:
-                _m.main()
-            if twin is not None and rnd.random() < 0.5:     # and once more, the other way round
-                for _m in reversed(order):
+            try:
+                for _m in order:
                     _m.main()
-        except BaseException as e:       # the workload itself failed: not the tracer's business, but note it
-            crashed = f"{type(e).__name__}: {e}"
-    finally:
-        sys.setprofile(old)
-        random.randrange = real_randrange
-    # drop references to live generators so their frames finish outside tracing (no events recorded)
-    events = [e.replace("DRAW", "0") for e in rec.events]
-    impl = []
-    for fnum, tr in logger.items:
-        impl.append(f"({common.coq_N(fnum if fnum is not None else 0)}, {trace_term(rec, tr, ct)})")
-    residue = []
-    for fr in tracer.traces:
-        e = rec.frames.get(id(fr))
-        residue.append(common.coq_N(e[0] if e and e[1] is fr else 0))
-    # ground truth of attribution: code -> the function object that really owns it
-    truth = []
-    for ck, num in rec.codes.items():
-        fn = vrec.R.funcs.get(ck)
-        if ck in vrec.R.unresolvable:
-            continue                       # no ground truth: the property is about resolvable functions
-        truth.append(f"({common.coq_N(num)}, {common.coq_opt(common.coq_N(rec.funcnum(fn)) if fn is not None else None)})")
-    # ground truth of entry values per frame (types of the values bound to the named parameters at entry)
-    entries = []
-    from monkeytype.typing import get_type
-    for fid, (num, fr) in rec.frames.items():
-        ent = vrec.R.entry.get(fid)
-        if ent is not None:
-            entries.append(f"({common.coq_N(num)}, " + common.coq_list(
-                f"({common.coq_str(n)}, {common.reify_type(get_type(v, k), ct)})" for n, v in ent.items()) + ")")
-    rate_t = "None" if rate is None else f"(Some {rate})"
-    term = (f"TCase {rate_t} {common.coq_list(events)} {common.coq_list(impl)} {common.coq_list(residue)} "
-            f"{common.coq_list(truth)} {common.coq_list(entries)}")
+                if twin is not None and rnd.random() < 0.5:     # and once more, the other way round
+                    for _m in reversed(order):
+                        _m.main()
+            except BaseException as e:       # the workload itself failed: not the tracer's business, but note it
+                crashed = f"{type(e).__name__}: {e}"
+        finally:
+            sys.setprofile(old)
+            random.randrange = real_randrange
+        # drop references to live generators so their frames finish outside tracing (no events recorded)
+        events = [e.replace("DRAW", "0") for e in rec.events]
+        impl = []
+        for fnum, tr in logger.items:
+            impl.append(f"({common.coq_N(fnum if fnum is not None else 0)}, {trace_term(rec, tr, ct)})")
+        residue = []
+        for fr in tracer.traces:
+            e = rec.frames.get(id(fr))
+            residue.append(common.coq_N(e[0] if e and e[1] is fr else 0))
+        # ground truth of attribution: code -> the function object that really owns it
+        truth = []
+        for ck, num in rec.codes.items():
+            fn = vrec.R.funcs.get(ck)
+            if ck in vrec.R.unresolvable:
+                continue                       # no ground truth: the property is about resolvable functions
+            truth.append(f"({common.coq_N(num)}, {common.coq_opt(common.coq_N(rec.funcnum(fn)) if fn is not None else None)})")
+        # ground truth of entry values per frame (types of the values bound to the named parameters at entry)
+        entries = []
+        from monkeytype.typing import get_type
+        for fid, (num, fr) in rec.frames.items():
+            ent = vrec.R.entry.get(fid)
+            if ent is not None:
+                entries.append(f"({common.coq_N(num)}, " + common.coq_list(
+                    f"({common.coq_str(n)}, {common.reify_type(get_type(v, k), ct)})" for n, v in ent.items()) + ")")
+        rate_t = "None" if rate is None else f"(Some {rate})"
+        term = (f"TCase {rate_t} {common.coq_list(events)} {common.coq_list(impl)} {common.coq_list(residue)} "
+                f"{common.coq_list(truth)} {common.coq_list(entries)}")
+        return term, events, impl, residue, crashed, rec
+
+    term, events, impl, residue, crashed, rec = session(order)
+    second = None
+    if twin is None and not many and rnd.random() < 0.2:
+        # a SECOND tracing session in the same process, on the module loaded afresh (new function objects whose code
+        # objects are equal to the first load's): nothing the first session learnt may leak into it
+        vrec.R.reset()
+        mod2 = load_module(path, name)
+        mod2.V[:] = list(mod.V)
+        t2, e2, i2, r2, c2, rec2 = session([mod2])
+        second = {"term": t2, "stats": {"events": len(e2), "frames": len(rec2.frames), "logged": len(i2), "rate": rate, "k": k,
+                                       "filter": use_filter, "rejected": sorted(f"{n}@{l}" for n, l in rejected), "crashed": c2,
+                                       "errors": rec2.errors[:3], "twin": False, "twin_one_file_admitted": False, "many_live": 0,
+                                       "gens": src.count("yield"), "awaits": src.count("await Susp"), "residue": len(r2),
+                                       "second_session": True},
+                  "src": src if os.environ.get("VERIF_DEBUG") else None, "prog": name + "#session2"}
     del sys.modules[name]
     if twin is not None:
         del sys.modules[name + "_twin"]
     stats = {"events": len(events), "frames": len(rec.frames), "logged": len(impl), "rate": rate, "k": k,
              "filter": use_filter, "rejected": sorted(f"{n}@{l}" for n, l in rejected), "crashed": crashed, "errors": rec.errors[:3],
              "twin": twin is not None, "twin_one_file_admitted": only_file is not None, "many_live": many, "gens": src.count("yield"), "awaits": src.count("await Susp"), "residue": len(residue)}
-    return {"term": term, "stats": stats, "src": src if (idx < 2 or os.environ.get("VERIF_DEBUG")) else None, "prog": name}
+    first = {"term": term, "stats": stats, "src": src if (idx < 2 or os.environ.get("VERIF_DEBUG")) else None, "prog": name}
+    return [first] + ([second] if second is not None else [])
 
 
 BATCH_SEED = 1
@@ -301,7 +322,7 @@ def main():
     out = []
     for i in range(n):
         try:
-            out.append(run_one(workdir, i, rnd, mode, ct))
+            out.extend(run_one(workdir, i, rnd, mode, ct))
         except Exception as e:
             import traceback
             out.append({"term": None, "stats": {"harness_error": f"{type(e).__name__}: {e}", "tb": traceback.format_exc()[-800:]}})
